@@ -100,4 +100,26 @@ def suite_iso(ctx):
     return isoconst.suite_iso(ctx)
 
 
-SUITES = [suite_names, suite_iso]
+def suite_isolated(ctx):
+    """name lookups through a user table that extends a library table, with identifiers that are IntEnum members, and with the documented parameter names given by keyword (child process: harness/isolated_child.py names)"""
+    import json
+    import os
+    import subprocess
+    import sys as _sys
+    s = Suite('isolated')
+    env = dict(os.environ, UDS_REPO=core.REPO)
+    child = os.path.join(os.path.dirname(os.path.dirname(os.path.abspath(__file__))), 'isolated_child.py')
+    p = subprocess.run([_sys.executable, child, 'names'], stdout=subprocess.PIPE, stderr=subprocess.PIPE, text=True, env=env, timeout=120)
+    s.evaluations += 1
+    s.distinct.add('names')
+    try:
+        problems = json.loads(p.stdout.strip().split('\n')[-1])
+    except Exception:  # noqa
+        problems = [{'input': 'isolated_child.py names', 'observed': 'child failed: ' + (p.stderr or p.stdout)[-500:], 'required': 'the scenarios run to their end'}]
+    for pr in problems:
+        s.fail({'site': 'name lookup', 'input': pr['input'], 'observed': pr['observed'], 'required': pr['required']})
+    s.exhaustive = True
+    return s
+
+
+SUITES = [suite_names, suite_iso, suite_isolated]
